@@ -67,7 +67,7 @@ Proof.
 Qed.
 
 Lemma step_env : forall s o, ct_env (fst (step s o)) = ct_env s.
-Proof. intros. unfold ct_env. rewrite step_threads, step_salt. reflexivity. Qed.
+Proof. intros. unfold ct_env. rewrite step_threads. reflexivity. Qed.
 
 Lemma run_env : forall h s, ct_env (fst (run s h)) = ct_env s.
 Proof.
